@@ -242,6 +242,67 @@ def run(ctx):
                           "fun c => match c with (d, size, batch, got) => result_eqb z_list2_eqb (normalize d size (map (store_as d) (flatten batch))) (Ok got) end", "convert")
     for i in bad[:3]:
         ctx.violation("correspondence", "conversion model differs from torch.as_tensor(...).to(int64).reshape", {"coq_case": cases[i]}, False)
+    # the FULL container model (ConvertFull.v: flat / rows / matrices / string, ragged and mis-sized inputs, error classes): normalize_states against
+    # CayleyGraph.encode_states on an un-encoded graph, normalize_central against CayleyGraphDef.normalize_central_state
+    from cayleypy import CayleyGraph, CayleyGraphDef
+    ERRN = {"AssertionError": "AssertionErr", "ValueError": "ValueErr", "IndexError": "IndexErr", "KeyError": "KeyErr", "TypeError": "TypeErr", "RuntimeError": "RuntimeErr"}
+
+    def clit(c):
+        if isinstance(c, str):
+            return f'(CStr "{c}")'
+        if not c or not isinstance(c[0], list):
+            return f"(C1 {czl(c)})"
+        if not c[0] or not isinstance(c[0][0], list):
+            return f"(C2 {czll(c)})"
+        return "(C3 " + clist(c, czll) + ")"
+
+    def res_lit(fn, fmt):
+        try:
+            return "(Ok " + fmt(fn()) + ")"
+        except Exception as ex:  # pylint: disable=broad-except
+            return "(Err " + ERRN.get(type(ex).__name__, "RuntimeErr") + ")"
+    scases, ccases = [], []
+    for _ in range(ctx.budget(150, 1500)):
+        size = rng.choice([1, 2, 3, 4, 6])
+        k = rng.randint(1, 3)
+        batch = [[rng.randint(0, 9) for _ in range(size)] for _ in range(k)]
+        r = rng.random()
+        if r < 0.2:
+            c = [v for row in batch for v in row]
+        elif r < 0.4:
+            c = batch
+        elif r < 0.55 and size % 2 == 0:
+            c = [[row[i:i + 2] for i in range(0, size, 2)] for row in batch]
+        elif r < 0.65:
+            c = [list(row) for row in batch] + [batch[0][:-1] if size > 1 else batch[0] + [0]]          # ragged rows
+        elif r < 0.75:
+            c = [v for row in batch for v in row] + [1]                                              # not a multiple of the state size (unless size = 1)
+        elif r < 0.85:
+            c = "".join(str(v) for v in batch[0])
+        elif r < 0.92 and size % 2 == 0:
+            c = [[row[i:i + 2] for i in range(0, size, 2)] for row in batch] + [[batch[0][:1]]]       # ragged at depth 3
+        else:
+            c = "".join(str(v) for v in batch[0])[:-1] + rng.choice(["a", " ", "-", "x"])
+        g = CayleyGraph(CayleyGraphDef.create([list(range(1, size)) + [0]] if size > 1 else [[0]], central_state=[0] * size), device="cpu", bit_encoding_width=None)
+        scases.append(f"({size}%nat, {clit(c)}, {res_lit(lambda: G.flat_states(g.encode_states(c)), czll)})")
+        d0 = CayleyGraphDef.create([list(range(1, size)) + [0]] if size > 1 else [[0]])
+        # central state: ONE state of the right length in every form (flat, one-row batch, matrix-shaped, digit string), plus ragged nesting and non-digit strings;
+        # (a wrong total length is refused later, by the definition's own length check, which is not part of the container model)
+        row = batch[0]
+        r1 = rng.random()
+        c1 = (row if r1 < 0.2 else [row] if r1 < 0.4 else [row[i:i + 2] for i in range(0, size, 2)] if r1 < 0.55 and size % 2 == 0 else
+              "".join(str(v) for v in row) if r1 < 0.75 else [row, row[:-1]] if r1 < 0.85 and size > 1 else
+              "".join(str(v) for v in row)[:-1] + rng.choice(["a", " ", "-", "x"]))
+        ccases.append(f"({clit(c1)}, {res_lit(lambda: [int(v) for v in CayleyGraphDef.normalize_central_state(c1)], czl)})")
+        ctx.count("container_model_cases")
+    bad = ctx.coq_failing("Base Convert ConvertFull", "Open Scope string_scope.", "nat * container * result (list (list Z))", scases,
+                          "fun c => match c with (size, cont, got) => result_eqb z_list2_eqb (normalize_states I64 size cont) got end", "convfull")
+    for i in bad[:3]:
+        ctx.violation("correspondence", "container model (ConvertFull.normalize_states) differs from CayleyGraph.encode_states", {"coq_case": scases[i]}, False)
+    bad = ctx.coq_failing("Base Convert ConvertFull", "Open Scope string_scope.", "container * result (list Z)", ccases,
+                          "fun c => match c with (cont, got) => result_eqb z_list_eqb (normalize_central I64 cont) got end", "convcentral")
+    for i in bad[:3]:
+        ctx.violation("correspondence", "container model (ConvertFull.normalize_central) differs from CayleyGraphDef.normalize_central_state", {"coq_case": ccases[i]}, False)
 
 
 def replay(ctx, obj):
